@@ -499,7 +499,18 @@ class Intrinsics:
                 return item in container
             return z3.Contains(ex.to_str_term(container), ex.to_str_term(item))
         if isinstance(container, HDict):
+            if isinstance(item, (HList, HDict, HSet)):
+                ex.raise_builtin("TypeError", "unhashable type in a mapping membership test")
             return self.dict_has(container, item)
+        if isinstance(container, HList) and container.sym is not None:
+            # a symbolic list: membership of the (boxed) item among its elements
+            if container.sym.elem == "any":
+                if isinstance(item, (SAny, HObj, HDict, HList)) or item is None:
+                    return z3.Contains(container.sym.t, z3.Unit(ex.box(item)))
+                self.use("x in <list of opaque values> for a primitive x: an unconstrained boolean")
+                return ex.fresh("member", "bool").t
+            t, k = ex.lift(item)
+            return z3.Contains(container.sym.t, z3.Unit(t)) if k == container.sym.elem else False
         if isinstance(container, HObj):
             r = ex.repo.find_method(container.cls.mod, container.cls.node, "__contains__")
             if r and r[0] == "func":
